@@ -32,12 +32,12 @@ UNIVERSE = [b"k0", b"k1", b"key-two", b"\x00", b"", b"k5" * 20]
 
 def plan(tier, seed):
     specs = []
-    for i in range(10 if tier == "quick" else 12):
+    for i in range(11 if tier == "quick" else 12):
         specs.append({"name": f"pickled{i}", "cls": "PickledDict", "index": i,
-                      "sequences": 250 if tier == "quick" else 100000, "budget_s": 90 if tier == "quick" else 420})
+                      "sequences": 3000 if tier == "quick" else 100000, "budget_s": 90 if tier == "quick" else 420})
     for i in range(5 if tier == "quick" else 4):
         specs.append({"name": f"dbm{i}", "cls": "DBMDict", "index": i,
-                      "sequences": 60 if tier == "quick" else 20000, "budget_s": 120 if tier == "quick" else 420})
+                      "sequences": 500 if tier == "quick" else 20000, "budget_s": 120 if tier == "quick" else 420})
     return specs
 
 
@@ -342,6 +342,41 @@ class Runner:
                 self.viol("create-over-existing-wrong-exception", f"raised {type(e).__name__} instead of "
                                                                   f"FileExistsError")
                 raise Fail()
+            # the same through from_dict (with several kinds of source), and whatever was refused: the dictionary that
+            # lives at the path is still there, byte for byte
+            def file_bytes():
+                try:
+                    with open(path, "rb") as f:
+                        return f.read()
+                except OSError as e:
+                    return f"<{type(e).__name__}>"
+            before = file_bytes() if self.clsname == "PickledDict" else None
+            for src in ({}, {b"intruder": b"x"}, dict(model)):
+                acc.count("refusals.path.from_dict")
+                try:
+                    other = self.cls.from_dict(src, path)
+                    self.viol("from_dict-over-existing-accepted", "from_dict() on an existing file did not raise")
+                    try:
+                        other.close()
+                    except Exception:
+                        pass
+                    raise Fail()
+                except Fail:
+                    raise
+                except FileExistsError:
+                    pass
+                except Exception as e:
+                    self.viol("from_dict-over-existing-wrong-exception", f"raised {type(e).__name__} instead of "
+                                                                         f"FileExistsError")
+                    raise Fail()
+            if before is not None:
+                after = file_bytes()
+                acc.count("refusals.path.file_compared")
+                if after != before:
+                    self.viol("refused-creation-changed-the-existing-dictionary",
+                              f"after refused create() / from_dict() calls over its path the stored dictionary "
+                              f"{'is gone' if isinstance(after, str) else 'has other bytes'}")
+                    raise Fail()
             try:
                 other = self.cls.open(path + ".missing")
                 self.viol("open-missing-accepted", "open() on a missing file did not raise")
